@@ -12,6 +12,7 @@ def run(ctx):
     q = ctx.tier == "quick"
     to = 600 if q else 2400
     conds = [Cond("simple/2-streams/two-hash-environments+listing-orders", "c13", "h_simple", {"VF_NS": 2}, to),
+             Cond("simple/one-updater-reused-with-swapped-names", "c13", "h_reuse", {}, to),
              Cond("simple/negative-replication-refused-unchanged", "c13", "h_simple_refuse", {}, to),
              *[Cond(f"table/listed={m}/tables<={2 if q else 3}/replication -1..len+1", "c13", "h_table",
                     {"VF_TABMAX": 2 if q else 3, "VF_LISTED": m}, to) for m in ("00", "01", "10", "11")],
